@@ -88,13 +88,14 @@ type Executor struct {
 	initSkip func(fn *ssa.Function) bool
 	Params   map[string]int
 	ShardBits, ShardID int
+	MaxSwitches int
 	eo         *eoCtx
 	reachCache map[*ssa.BasicBlock]map[int]bool
 }
 
 func NewExecutor(prog *ssa.Program, solver *smt.Session) *Executor {
 	ex := &Executor{Prog: prog, Solver: solver, Intr: map[string]Intrinsic{}, Redir: map[string]*ssa.Function{},
-		globals: map[*ssa.Global]*Obj{}, BaseHeap: map[*Obj]Val{}, LoopCap: 40, MaxPaths: 200000, MaxSteps: 2000000,
+		globals: map[*ssa.Global]*Obj{}, BaseHeap: map[*Obj]Val{}, LoopCap: 40, MaxSwitches: 3, MaxPaths: 200000, MaxSteps: 2000000,
 		seenViol: map[string]bool{}, Overrides: map[string]*ssa.Function{}, Params: map[string]int{}}
 	ex.Stats.Reach = map[string]int{}
 	ex.Stats.AssertIDs = map[string]int{}
@@ -859,14 +860,29 @@ func (ex *Executor) runDefers(st *State, f *Frame) ctl {
 		return cNext
 	}
 	d := f.Defers[len(f.Defers)-1]
+	// A deferred call to an engine intrinsic completes synchronously (or blocks / yields): the frame is only
+	// changed once it has happened, because a fork inside the intrinsic re-executes this instruction.
+	synchronous := d.Fn.Intr != ""
+	if d.Fn.Fn != nil {
+		fn := d.Fn.Fn
+		if ov, ok := ex.Overrides[fn.String()]; ok {
+			fn = ov
+		}
+		if _, ok := ex.findIntrinsic(fn); ok {
+			synchronous = true
+		}
+	}
+	if synchronous {
+		c := ex.doCall(st, f, d, nil, false)
+		if c == cBlock || c == cSwitch {
+			return c
+		}
+		f.Defers = f.Defers[:len(f.Defers)-1]
+		return c
+	}
 	f.Defers = f.Defers[:len(f.Defers)-1]
 	f.InDefers = true
-	c := ex.doCall(st, f, d, nil, false)
-	// if the call completed synchronously (intrinsic), doCall(advance=false) leaves IP alone
-	if st.th().Frames[len(st.th().Frames)-1] == f {
-		f.InDefers = false
-	}
-	return c
+	return ex.doCall(st, f, d, nil, false)
 }
 
 // prepareCall resolves callee and evaluates arguments.
@@ -960,10 +976,8 @@ func (ex *Executor) doCall(st *State, f *Frame, d deferred, dest ssa.Value, adva
 				f.IP++
 			}
 			return cNext
-		case cSwitch:
-			// intrinsic pushed a frame itself or changed control; nothing more to do
-			return cNext
 		default:
+			// cBlock: the goroutine must retry this call later; cSwitch: another goroutine was given the processor
 			return c
 		}
 	}
